@@ -49,6 +49,9 @@ pub fn d_pool() -> Vec<String> {
         "y".repeat(600),
         "x\0\0".into(),
         "X".into(),
+        "x:y".into(),
+        "a:b:c".into(),
+        ":".into(),
     ]
 }
 
@@ -165,7 +168,7 @@ impl Default for EvCfg {
 pub fn gen_event(cfg: EvCfg) -> BoxedStrategy<GenEvent> {
     let w = cfg.kind_weights;
     let kind = prop_oneof![
-        w[0] => prop::sample::select(vec![1u16, 7, 1059, 9999, 40000]),
+        w[0] => prop::sample::select(vec![1u16, 1, 1, 7, 7, 1059, 9999, 40000]),
         w[1] => prop::sample::select(vec![0u16, 3, 10000, 10002, 19999]),
         w[2] => prop::sample::select(vec![30000u16, 30023, 39999]),
         w[3] => prop::sample::select(vec![20000u16, 20001, 29999]),
